@@ -33,6 +33,8 @@ def scenarios(tier, seed):
         out.append(scenario("%s-2ranks" % b, b, sets[1], seed * 31 + 77, tech=dict(tREFI=1700), nranks=2))
     # different read/write phases
     out.append(scenario("DDR3-phases", "DDR3", sets[0], seed + 5, tech=dict(tREFI=1600), phy=dict(cl_cwl=[7, 6])))
+    # write data phase 0 on a multi-phase PHY: the write-side command phase wraps around to the last phase
+    out.append(scenario("DDR3_200-wrphase0", "DDR3_200", sets[1], seed + 8, tech=dict(tREFI=1600), ctrl=dict(with_auto_precharge=False)))
     if tier == "thorough":
         out.append(scenario("DDR3-phases2", "DDR3", sets[1], seed + 6, tech=dict(tREFI=1600), phy=dict(cl_cwl=[10, 7])))
         out.append(scenario("DDR4-phases", "DDR4", sets[0], seed + 7, tech=dict(tREFI=1600), phy=dict(cl_cwl=[11, 9])))
